@@ -444,7 +444,18 @@ func (c *Ctx) c01Hijack() {
 			for _, cr := range flatten(creds) {
 				subj = append(subj, c.subjectIdentities(cr)...)
 			}
-			if sameOriginValue(ro, subj) {
+			carried := sameOriginValue(ro, subj)
+			// … on every way of arriving at the fire (a helper that leaves a user
+			// already in the context in place has the second-factor modules look at
+			// that other account, which may have no second factor at all)
+			if carried {
+				if ci := c.ctxChain(f.Req, 0); len(ci.may["user"]) > 0 {
+					if _, must := ci.must["user"]; !must {
+						carried = false
+					}
+				}
+			}
+			if carried {
 				r.Ok("C01.hijack-fire", name, "FireBefore(EventAuthHijack)", pos, "behind "+credKinds(creds)+"; request context carries the checked user")
 			} else {
 				r.Bad("C01.hijack-fire", name, "FireBefore(EventAuthHijack)", pos, fmt.Sprintf("request handed to the hijack handlers (identities: %s) does not carry the user whose credential was checked (%s)", names(ro), names(subj)))
